@@ -18,6 +18,12 @@ def _group_matching(tlist, cls):
     """Groups Tokens that have beginning and end."""
     opens = []
     tidx_offset = 0
+    # The opening and closing token of a group built by an earlier pass
+    # belong to that group: END closes a CASE as well as a BEGIN.
+    delimiters = ()
+    if isinstance(tlist, (sql.Parenthesis, sql.SquareBrackets, sql.Case,
+                          sql.If, sql.For, sql.Begin)):
+        delimiters = (tlist.tokens[0], tlist.tokens[-1])
     for idx, token in enumerate(list(tlist)):
         tidx = idx - tidx_offset
 
@@ -25,6 +31,9 @@ def _group_matching(tlist, cls):
             # ~50% of tokens will be whitespace. Will checking early
             # for them avoid 3 comparisons, but then add 1 more comparison
             # for the other ~50% of tokens...
+            continue
+
+        if token in delimiters:
             continue
 
         if token.is_group and not isinstance(token, cls):
